@@ -113,6 +113,7 @@ class TypeIdentityVariant(Variant):
     never equal to a built-in sort, two declared nullary sorts are equal exactly when their names are, the built-in
     singletons are pairwise different and equal to themselves, and equal sorts have equal hashes."""
     prop_ids = ("C03",)
+    replay_kind = "sort-identity"
 
     def __init__(self, world, left, right):
         self.world, self.left, self.right = world, left, right
@@ -175,6 +176,59 @@ def variants(world, tier="quick", only=None):
     for i, a in enumerate(kinds):
         for b in kinds[i:] if tier == "quick" else kinds:
             out.append(TypeIdentityVariant(world, a, b))
+    if only:
+        out = [v for v in out if any(o in v.name for o in only)]
+    return out
+
+
+def extras(prop, tier, seed):
+    if prop != "C03":
+        return []
+    from pyvc.report import run_bounded
+    return [run_bounded("sorts", tier, seed)]
+
+
+class SortArityVariant(Variant):
+    """PySMTType(decl, args): an instance of a declared sort constructor of arity n on k argument sorts exists exactly when
+    k = n (an attempt with another number of arguments raises)."""
+    prop_ids = ("C03",)
+    replay_kind = "sort-identity"
+
+    def __init__(self, world, n, k, spelling):
+        self.world, self.n, self.k, self.spelling = world, n, k, spelling
+        self.qualname = "pysmt.typing.PySMTType.__init__"
+        self.name = "sorts:arity[declared %d/given %d as %s]" % (n, k, spelling)
+
+    def setup(self, ex):
+        from pyvc.symex import ClassRef, Obj
+        W = self.world
+        for q in [q for q in list(W.contracts) + list(W.builtins) if str(q).startswith("new:pysmt.typing.")]:
+            W.contracts.pop(q, None)
+        name = z3.Const("declared_name", z3.StringSort())
+        ex.assume(z3.Length(name) > 0)
+        decl = W.instantiate(ex, ClassRef("pysmt.typing._TypeDecl"), [name, self.n], {})
+        ex.call(W.getattr(ex, decl, "set_custom_type_flag"), [], {})
+        args = [S.IntT, S.BoolT][:self.k]
+        args = tuple(args) if self.spelling == "tuple" else (list(args) if self.spelling == "list" else None)
+        self.o = Obj("pysmt.typing.PySMTType", {}, tag="sort")
+        fi = W.repo.method("pysmt.typing.PySMTType", "__init__")
+        return W.wrap_func(fi, fi.module, bound=self.o), [], {"decl": decl, "args": args}
+
+    def check(self, ex, outcome):
+        kind, r = outcome
+        ok = self.n == self.k
+        return [("instance-exists-exactly-for-the-declared-arity", z3.BoolVal((kind == "return") == ok))]
+
+
+_base_variants3b = variants
+
+
+def variants(world, tier="quick", only=None):
+    out = _base_variants3b(world, tier, None)
+    for n in (0, 1, 2):
+        for k in (0, 1, 2):
+            for sp in (("tuple", "list") + (("none",) if k == 0 else ())):
+                out.append(SortArityVariant(world, n, k, sp))
     if only:
         out = [v for v in out if any(o in v.name for o in only)]
     return out
